@@ -368,6 +368,38 @@ fn recovery(wk: &Worker, cb: &str, reference: &BTreeMap<String, Vec<u8>>, acc: &
     None
 }
 
+/// After a failed / killed run of `cb`, an undisturbed run of ANOTHER file-producing callback in the same dump folder: it must
+/// succeed with its own complete output, and it must not give a final name to anything the failed run left behind - every
+/// final-named file in the folder afterwards is either its own or was there, with that content, before it started.
+fn cross_recovery(wk: &Worker, cb: &str, recovery_ref: &BTreeMap<&str, BTreeMap<String, Vec<u8>>>, acc: &mut Report) -> Option<(String, String)> {
+    let cb2 = match cb {
+        "csvdump" => "unspentcsvdump",
+        "unspentcsvdump" => "balances",
+        _ => "csvdump",
+    };
+    let before = refmodel::run::read_dir_files(&wk.dump());
+    let r = wk.run_keep(&RunSpec::new("bitcoin", cb2).range(None, Some(2)));
+    acc.transitions += 1;
+    acc.count("recovery-runs-of-another-callback-after-failed-or-killed-run", 1);
+    if r.code != Some(0) {
+        return Some(("undisturbed-run-of-another-callback-fails-after-failed-run".into(), format!("{} after {}: exit {:?}: {}", cb2, cb, r.code, r.stderr.lines().next().unwrap_or(""))));
+    }
+    let own = &recovery_ref[cb2];
+    for (n, c) in own {
+        match r.files.get(n) {
+            None => return Some(("exit-0-but-output-file-missing".into(), format!("{} (run of {} after a failed {})", n, cb2, cb))),
+            Some(g) if &canon(n, g) != c => return Some(("exit-0-but-output-differs-from-undisturbed-run".into(), format!("{} (run of {} after a failed {})", n, cb2, cb))),
+            _ => {}
+        }
+    }
+    for (n, g) in &r.files {
+        if n.ends_with(".csv") && !own.contains_key(n) && before.get(n) != Some(g) {
+            return Some(("final-named-file-of-a-failed-run-appears-later".into(), format!("{} ({} bytes) has a final name after the undisturbed run of {}; it is not that run's output and was not there (with this content) before it - the failed / killed run of {} left only temporary files", n, g.len(), cb2, cb)));
+        }
+    }
+    None
+}
+
 #[derive(Clone, Debug)]
 enum Case {
     Input { cb: &'static str, height: u64, fault: String, range: (Option<u64>, Option<u64>) },
@@ -726,6 +758,9 @@ pub fn run() -> Report {
                         acc.sample(json!({"output_fault": format!("{} plan {}", cb, plan), "call": refseq.get(first_k).map(|c| format!("{} {} {}", c.op, c.path, c.len)), "exit": r.code, "files_after": r.files.keys().collect::<Vec<_>>()}));
                     }
                     if !*lg && r.code != Some(0) {
+                        if let Some((sig, d)) = cross_recovery(&wk, cb, &recovery_ref, acc) {
+                            acc.disagree(&format!("{}:after-{}", sig, kind), format!("{} small, first run with plan {} (exit {:?}): {}", cb, plan, r.code, d), json!({"kind": "e1-described", "callback": cb, "plan": plan, "then": "another callback, undisturbed, same folder"}));
+                        }
                         if let Some((sig, d)) = recovery(&wk, cb, &recovery_ref[*cb], acc) {
                             acc.disagree(&format!("{}:after-{}", sig, kind), format!("{} small, first run with plan {} (exit {:?}), then an undisturbed `-e 2` run in the same folder: {}", cb, plan, r.code, d), json!({"kind": "e1-described", "callback": cb, "first_run_plan": plan, "second_run": "-e 2, no faults, same dump folder"}));
                         }
@@ -749,6 +784,9 @@ pub fn run() -> Report {
                         return acc.machinery(format!("{} crash point {}: process exited {:?} instead of being killed", cb, k, r.code));
                     }
                     if !*lg && *k < refseq.len() {
+                        if let Some((sig, d)) = cross_recovery(&wk, cb, &recovery_ref, acc) {
+                            acc.disagree(&format!("{}:after-crash", sig), format!("{} small, first run killed before call #{}: {}", cb, k, d), json!({"kind": "e1-described", "callback": cb, "crash_before_call": k, "then": "another callback, undisturbed, same folder"}));
+                        }
                         if let Some((sig, d)) = recovery(&wk, cb, &recovery_ref[*cb], acc) {
                             acc.disagree(&format!("{}:after-crash", sig), format!("{} small, first run killed before call #{}, then an undisturbed `-e 2` run in the same folder: {}", cb, k, d), json!({"kind": "e1-described", "callback": cb, "first_run_crash_before_call": k, "second_run": "-e 2, no faults, same dump folder"}));
                         }
